@@ -349,6 +349,7 @@ static int rawConnect(int port)
 	if (connect(fd, (sockaddr*)&a, sizeof a) != 0) { close(fd); return -1; }
 	int one = 1;
 	setsockopt(fd, IPPROTO_TCP, TCP_NODELAY, &one, sizeof one);
+	setsockopt(fd, IPPROTO_TCP, TCP_QUICKACK, &one, sizeof one);
 	return fd;
 }
 
@@ -372,7 +373,7 @@ static bool sendPieces(int fd, const Str& data, const std::vector<size_t>& cuts)
 		if (e > pos) {
 			if (!sendAll(fd, data.data() + pos, e - pos)) return false;
 			pos = e;
-			if (i < cuts.size()) usleep(cuts.size() > 64 ? 150 : 400);
+			if (i < cuts.size()) usleep(cuts.size() > 64 ? 40 : cuts.size() > 8 ? 100 : 250);
 		}
 	}
 	return true;
@@ -385,6 +386,8 @@ static int recvSome(int fd, char* buf, int n, int ms)
 	int r = poll(&p, 1, ms);
 	if (r <= 0) return -1;
 	int k = (int)recv(fd, buf, (size_t)n, 0);
+	int one = 1;
+	setsockopt(fd, IPPROTO_TCP, TCP_QUICKACK, &one, sizeof one); // no delayed ACK: the peer's next small write is not held back
 	return k < 0 ? -1 : k;
 }
 
@@ -797,6 +800,176 @@ static Str opRaw(const Toks& t)
 	return out;
 }
 
+// big <req> P <plan>     one exchange with very large bodies, judged here: the handler must have seen the digest of
+// what was sent and the client the digest of what was produced
+static Str opBig(const Toks& t)
+{
+	size_t i = 1;
+	Req r;
+	Slot sl;
+	if (!reqOf(t, i, r) || !planOf(t, i, sl.plan)) return "bad-op";
+	if (!ensureServer()) return "err bind";
+	{ Lock l(gmx); current = &sl; }
+	HttpResponse res = doRequest(r, srv->thePort, &sl);
+	Str c = clientObs(res, srv->thePort, 0);
+	{ Lock l(gmx); current = 0; }
+	Str h = obsOrDash(sl);
+	Str wantH = " " + digest(r.body), wantC = " " + digest(sl.plan.body) + " E-";
+	bool okH = h.size() >= wantH.size() && h.compare(h.size() - wantH.size(), wantH.size(), wantH) == 0;
+	bool okC = c.size() >= wantC.size() && c.compare(c.size() - wantC.size(), wantC.size(), wantC) == 0;
+	bool okCode = c.compare(0, 2 + str(sl.plan.code).size() + 1, "C " + str(sl.plan.code) + " ") == 0;
+	if (okH && okC && okCode) return "ok 1";
+	return "bad handler-saw=" + h.substr(h.size() > 60 ? h.size() - 60 : 0) + " sent" + wantH + " client-saw=" + c.substr(0, 300) + " produced" + wantC;
+}
+
+// par <clients> <rounds> <seed> <maxbody>    concurrent clients, each with its own tokens; every exchange is judged
+// here: the handler saw this client's request, the client received the response made for this request
+struct ParClient {
+	int id, rounds, port;
+	unsigned long long seed;
+	int maxbody;
+	int okCount;
+	Str firstBad;
+	std::vector<Slot*> slots;
+	std::vector<Str> tokens;
+	std::vector<Str> bodies;
+	pthread_t th;
+};
+
+static void parOne(ParClient* pc, int r)
+{
+	Slot* sl = pc->slots[r];
+	const Str& token = pc->tokens[r];
+	const Str& body = pc->bodies[r];
+	char path[64];
+	snprintf(path, sizeof path, "/c/%d/%d", pc->id, r);
+	Str gotCode, gotEcho, gotBody;
+	bool rawClient = (pc->id + r) % 3 == 2;
+	if (!rawClient) {
+		HttpRequest q("POST", String::f("http://127.0.0.1:%d", pc->port) + path);
+		q.setHeader("X-Plan", S(token));
+		q.setHeader("X-Token", S(token));
+		q.put(ByteArray((const byte*)body.data(), (int)body.size()));
+		HttpResponse res = Http::request(q);
+		gotCode = str(res.code());
+		gotEcho = Z(res.header("X-Echo"));
+		gotBody = Str((const char*)res.body().data(), (size_t)res.body().length());
+	}
+	else {
+		int fd = rawConnect(pc->port);
+		if (fd < 0) { if (pc->firstBad.empty()) pc->firstBad = "connect failed"; return; }
+		Str req = Str("POST ") + path + " HTTP/1.1\r\nHost: x\r\nX-Plan: " + token + "\r\nX-Token: " + token +
+			"\r\nConnection: close\r\nContent-Length: " + str((long long)body.size()) + "\r\n\r\n" + body;
+		std::vector<size_t> cuts;
+		unsigned long long x = pc->seed * 31 + (unsigned)r;
+		for (int k = 0; k < 6; k++) { x = (x * 1103515245ULL + 12345ULL) % 2147483648ULL; cuts.push_back((size_t)(x % (req.size() + 1))); }
+		std::sort(cuts.begin(), cuts.end());
+		sendPieces(fd, req, cuts);
+		Str pending, msg;
+		rawReadMessage(fd, pending, msg, 5000);
+		close(fd);
+		size_t he = msg.find("\r\n\r\n");
+		if (he != Str::npos) {
+			gotBody = msg.substr(he + 4);
+			if (lower(msg.substr(0, he)).find("\r\ntransfer-encoding: chunked") != Str::npos) {
+				Str dec;
+				size_t q = 0;
+				for (;;) {
+					size_t le = gotBody.find("\r\n", q);
+					if (le == Str::npos) break;
+					unsigned long sz = strtoul(gotBody.c_str() + q, NULL, 16);
+					if (sz == 0) break;
+					dec += gotBody.substr(le + 2, sz);
+					q = le + 2 + sz + 2;
+				}
+				gotBody = dec;
+			}
+			size_t sp = msg.find(' ');
+			gotCode = msg.substr(sp + 1, 3);
+			size_t e = msg.find("\r\nX-Echo: ");
+			if (e != Str::npos && e < he) gotEcho = msg.substr(e + 10, msg.find("\r\n", e + 2) - (e + 10));
+		}
+	}
+	Str wantH = "H " + hex(Str("POST")) + " " + hex(Str(path)) + " - Q0 ";
+	bool okH = sl->seen.called && sl->seen.line.compare(0, wantH.size(), wantH) == 0 &&
+		sl->seen.line.find(" " + hex(Str("X-Token")) + " " + hex(token) + " ") != Str::npos &&
+		sl->seen.line.find(" " + digest(body)) != Str::npos;
+	bool okC = gotCode == str(sl->plan.code) && gotEcho == token && gotBody == sl->plan.body;
+	if (okH && okC) pc->okCount++;
+	else if (pc->firstBad.empty())
+		pc->firstBad = "client " + str(pc->id) + " round " + str(r) + (rawClient ? " (raw)" : "") + ": handler-ok=" + (okH ? "1" : "0") +
+			" saw=" + (sl->seen.called ? sl->seen.line.substr(0, 200) : Str("H-")) + " code=" + gotCode + "/" + str(sl->plan.code) +
+			" echo=" + hex(gotEcho) + "/" + hex(token) + " body=" + digest(gotBody) + "/" + digest(sl->plan.body);
+}
+
+static void* parRun(void* p)
+{
+	ParClient* pc = (ParClient*)p;
+	for (int r = 0; r < pc->rounds; r++) {
+		usleep((useconds_t)((pc->seed + (unsigned)r * 7919u) % 300));
+		parOne(pc, r);
+	}
+	return 0;
+}
+
+static Str opPar(const Toks& t)
+{
+	if (t.size() != 5) return "bad-op";
+	int n = atoi(t[1].c_str()), rounds = atoi(t[2].c_str());
+	unsigned long long seed = strtoull(t[3].c_str(), 0, 10);
+	int maxbody = atoi(t[4].c_str());
+	if (n < 1 || n > 256 || rounds < 1) return "bad-op";
+	if (!ensureServer()) return "err bind";
+	std::vector<ParClient*> cs;
+	unsigned long long x = seed % 2147483648ULL;
+	for (int i = 0; i < n; i++) {
+		ParClient* pc = new ParClient;
+		pc->id = i; pc->rounds = rounds; pc->port = srv->thePort; pc->seed = seed + (unsigned)i * 977u; pc->maxbody = maxbody; pc->okCount = 0;
+		for (int r = 0; r < rounds; r++) {
+			char tok[64];
+			snprintf(tok, sizeof tok, "t%llu-%d-%d", seed, i, r);
+			x = (x * 1103515245ULL + 12345ULL) % 2147483648ULL;
+			size_t l1 = (size_t)(x % (unsigned)(maxbody + 1));
+			x = (x * 1103515245ULL + 12345ULL) % 2147483648ULL;
+			size_t l2 = (size_t)(x % (unsigned)(maxbody + 1));
+			Str b1, b2;
+			char spec[64];
+			snprintf(spec, sizeof spec, "g%llu.%zu.%d", x % 1000003ULL + (unsigned)i, l1, (i + r) % 3);
+			bodyOf(spec, b1);
+			snprintf(spec, sizeof spec, "g%llu.%zu.%d", x % 999983ULL + (unsigned)r, l2, (i + r + 1) % 3);
+			bodyOf(spec, b2);
+			Slot* sl = new Slot;
+			sl->plan.code = 200 + (i + r) % 7;
+			sl->plan.headers.v.push_back(std::make_pair(Str("X-Echo"), Str(tok)));
+			sl->plan.kind = (i + r) % 4 == 3 ? 's' : (i + r) % 4 == 2 ? 'f' : 'b';
+			if (sl->plan.kind == 's') sl->plan.parts.push_back(1000 + (size_t)i);
+			sl->plan.body = b2;
+			pc->slots.push_back(sl);
+			pc->tokens.push_back(tok);
+			pc->bodies.push_back(b1);
+			{ Lock l(gmx); slots[tok] = sl; }
+		}
+		cs.push_back(pc);
+	}
+	for (int i = 0; i < n; i++) pthread_create(&cs[i]->th, 0, parRun, cs[i]);
+	int ok = 0;
+	Str bad;
+	for (int i = 0; i < n; i++) {
+		pthread_join(cs[i]->th, 0);
+		ok += cs[i]->okCount;
+		if (bad.empty() && !cs[i]->firstBad.empty()) bad = cs[i]->firstBad;
+	}
+	{
+		Lock l(gmx);
+		for (int i = 0; i < n; i++) {
+			for (size_t r = 0; r < cs[i]->slots.size(); r++) { slots.erase(cs[i]->tokens[r]); delete cs[i]->slots[r]; }
+			delete cs[i];
+		}
+	}
+	if (bad.empty() && ok == n * rounds) return "ok " + str(ok);
+	return "bad " + str(ok) + "/" + str(n * rounds) + " " + bad;
+}
+
 static std::string step(const Toks& t)
 {
 	const std::string& op = t[0];
@@ -804,6 +977,8 @@ static std::string step(const Toks& t)
 	if (op == "cwire") return opCwire(t);
 	if (op == "cread") return opCread(t);
 	if (op == "raw") return opRaw(t);
+	if (op == "big") return opBig(t);
+	if (op == "par") return opPar(t);
 	if (op == "options") { optionsToHandler = t.size() > 1 && t[1] == "1"; return "ok"; }
 	return "bad-op";
 }
@@ -812,7 +987,15 @@ int main()
 {
 	int rc = run(reset, step);
 	reset();
-	if (srv) { srv->stop(true); }
+	if (srv) {
+		srv->stop(false);
+		for (int k = 0; k < 200 && srv->running(); k++) {
+			int fd = rawConnect(srv->thePort); // wakes the accept loop so that it sees the stop request
+			if (fd >= 0) close(fd);
+			usleep(10000);
+		}
+		if (!srv->running()) delete srv;
+	}
 	if (!tmpdir.empty()) rmdir(tmpdir.c_str());
 	return rc;
 }
